@@ -331,6 +331,66 @@ async fn run_distributed(
     Ok((r.result.schema.clone(), r.result.batches, info))
 }
 
+/// Bind, apply exactly the named optimizer rules (with the tables' statistics, as the production
+/// optimizer does), execute.  `info` receives the plan schema / join tree before and after.
+async fn run_with_rules(
+    ctx: &ExecutionContext,
+    sql: &str,
+    rules: &[String],
+    info: &std::sync::Mutex<Value>,
+) -> query_engine::Result<(SchemaRef, Vec<RecordBatch>)> {
+    use crate::planinfo;
+    let logical = ctx.logical_plan(sql)?;
+    let mut stats = std::collections::HashMap::new();
+    for name in ctx.table_names() {
+        if let Some(p) = ctx.table_provider(&name) {
+            if let Some(s) = p.statistics() {
+                stats.insert(name.clone(), s);
+            }
+        }
+    }
+    let mut rs = Vec::new();
+    for r in rules {
+        match planinfo::rule_by_name(r, &stats) {
+            Some(x) => rs.push(x),
+            None => return Err(query_engine::QueryError::Plan(format!("harness: unknown rule {r}"))),
+        }
+    }
+    let before = planinfo::plan_info(&logical);
+    *info.lock().unwrap() = json!({"before": before});
+    let optimizer = query_engine::optimizer::Optimizer::with_rules(rs).with_table_statistics(stats);
+    let optimized = match optimizer.optimize(logical.clone()) {
+        Ok(p) => p,
+        Err(e) => {
+            info.lock().unwrap()["optimize_error"] = json!(format!("{e}"));
+            return Err(e);
+        }
+    };
+    info.lock().unwrap()["after"] = planinfo::plan_info(&optimized);
+    info.lock().unwrap()["changed"] = json!(format!("{}", optimized) != format!("{}", logical));
+    execute_logical(ctx, &optimized).await
+}
+
+async fn execute_logical(ctx: &ExecutionContext, logical: &query_engine::planner::LogicalPlan) -> query_engine::Result<(SchemaRef, Vec<RecordBatch>)> {
+    use query_engine::physical::PhysicalPlanner;
+    let mut planner = PhysicalPlanner::with_config(ctx.memory_pool().clone(), ctx.config().clone());
+    for name in ctx.table_names() {
+        if let Some(p) = ctx.table_provider(&name) {
+            planner.register_table(name.clone(), p);
+        }
+    }
+    planner.enable_subquery_execution();
+    let physical = planner.create_physical_plan(logical)?;
+    let n = physical.output_partitions().max(1);
+    let mut all = Vec::new();
+    for p in 0..n {
+        let stream = physical.execute(p).await?;
+        let bs: Vec<RecordBatch> = stream.try_collect().await?;
+        all.extend(bs);
+    }
+    Ok((physical.schema(), all))
+}
+
 async fn run_unoptimized(ctx: &ExecutionContext, sql: &str) -> query_engine::Result<(SchemaRef, Vec<RecordBatch>)> {
     use query_engine::physical::PhysicalPlanner;
     let logical = ctx.logical_plan(sql)?;
@@ -368,6 +428,7 @@ pub fn run_one(rt: &tokio::runtime::Runtime, tables: &[TableData], sql: &str, un
     };
     let opt_none = cfg.get("opt").and_then(|v| v.as_str()) == Some("none");
     let dist = cfg.get("dist").and_then(|v| v.as_u64());
+    let rules_opt: Option<Vec<String>> = cfg.get("rules").and_then(|v| v.as_array()).map(|a| a.iter().map(|x| x.as_str().unwrap().to_string()).collect());
     let sql2 = sql.to_string();
     let ctxref = &built.ctx;
     let builtref = &built;
@@ -375,7 +436,9 @@ pub fn run_one(rt: &tokio::runtime::Runtime, tables: &[TableData], sql: &str, un
     let res = std::panic::catch_unwind(std::panic::AssertUnwindSafe(|| {
         rt.block_on(async {
             let fut = async {
-                if let Some(n) = dist {
+                if let Some(rules) = rules_opt.as_ref() {
+                    run_with_rules(ctxref, &sql2, rules, &dist_info).await
+                } else if let Some(n) = dist {
                     let (s, b, info) = run_distributed(builtref, cfg, workdir, &sql2, n as usize).await?;
                     *dist_info.lock().unwrap() = info;
                     Ok((s, b))
@@ -395,7 +458,11 @@ pub fn run_one(rt: &tokio::runtime::Runtime, tables: &[TableData], sql: &str, un
     let mut meta = json!({"cfg": cfg["name"], "paths": paths});
     let di = dist_info.lock().unwrap().clone();
     if !di.is_null() {
-        meta["dist"] = di;
+        if rules_opt.is_some() {
+            meta["plan"] = di;
+        } else {
+            meta["dist"] = di;
+        }
     }
     let out = match res {
         Err(p) => {
